@@ -219,8 +219,8 @@ REPOTESTS = {'kind': 'repotests', 'name': 'repotests'}
 
 def p_c01(q):
     if q:
-        return [mc_router('T'), REPOTESTS, gen_bfs('A', 2, sample=0.35), gen_bfs('B', 1), gen_bfs('Y', 3), gen_bfs('FC', 3, module='MC_RouterF'), gen_sim('A', 8, 12), gogen('bytes', 60)]
-    return [mc_router('T'), mc_router('M', 'routerM'), gen_bfs('A', 2), gen_bfs('B', 2), gen_bfs('C', 2), gen_bfs('X', 2, sample=0.3), gen_bfs('Y', 3), gen_bfs('FC', 3, module='MC_RouterF'),
+        return [mc_router('T'), REPOTESTS, gen_bfs('A', 2, sample=0.35), gen_bfs('B', 1), gen_bfs('R', 2), gen_bfs('Y', 3), gen_bfs('FC', 3, module='MC_RouterF'), gen_sim('A', 8, 12), gogen('bytes', 60)]
+    return [mc_router('T'), mc_router('M', 'routerM'), gen_bfs('A', 2), gen_bfs('B', 2), gen_bfs('C', 2), gen_bfs('X', 2, sample=0.3), gen_bfs('R', 3), gen_bfs('Y', 3), gen_bfs('FC', 3, module='MC_RouterF'),
             gen_sim('A', 12, 60), gen_sim('B', 12, 40, seedoff=1), gogen('bytes', 1500), gogen('mixed', 800, seedoff=1)]
 
 
@@ -238,7 +238,7 @@ def p_c02(q):
 
 def p_c03(q):
     if q:
-        return [mc_router('T'), mc_tree(4), gen_bfs('B', 2, sample=0.2, dump=True), gen_bfs('C', 2, sample=0.4, dump=True), gen_bfs('X', 2, sample=0.05), gen_bfs('R', 5), gen_bfs('A', 2, sample=0.15),
+        return [mc_router('T'), mc_tree(4), gen_bfs('B', 2, sample=0.12, dump=True), gen_bfs('C', 2, sample=0.4, dump=True), gen_bfs('X', 2, sample=0.05), gen_bfs('R', 5, sample=0.3), gen_bfs('A', 2, sample=0.15),
                 gen_bfs('Y', 3, link=True), gen_bfs('FC', 3, module='MC_RouterF'), gen_sim('B', 8, 10), gogen('mixed', 40)]
     return [mc_router('T'), mc_router('M', 'routerM'), mc_tree(6), REPOTESTS, gen_bfs('A', 2, dump=True), gen_bfs('B', 2, dump=True), gen_bfs('C', 2, dump=True), gen_bfs('X', 2, sample=0.3), gen_bfs('R', 6), gen_bfs('Y', 3, link=True), gen_bfs('FC', 3, module='MC_RouterF'),
             gen_sim('A', 14, 60), gen_sim('B', 14, 60, seedoff=1), gen_sim('C', 14, 40, seedoff=2), gogen('mixed', 1500)]
@@ -253,7 +253,7 @@ def p_c04(q):
 
 def p_c05(q):
     if q:
-        return [mc_router('T'), gen_bfs('X', 2, sample=0.08), gen_bfs('B', 2, sample=0.15), gen_bfs('R', 5), gen_bfs('A', 2, sample=0.2), gen_bfs('Wd', 2), gogen('bytes', 100), gogen('patterns', 1500, seedoff=2),
+        return [mc_router('T'), gen_bfs('X', 2, sample=0.08), gen_bfs('B', 2, sample=0.15), gen_bfs('R', 5, sample=0.3), gen_bfs('A', 2, sample=0.2), gen_bfs('Wd', 2), gogen('bytes', 100), gogen('patterns', 1500, seedoff=2),
                 gogen('patenum4', 0, name='go-patenum4'), gogen('bytes', 60, fam='match', trace='Trace_Match', seedoff=3), gogen('bytes', 40, fam='group', trace='Trace_Group', seedoff=4)] + cors_stages(0.06, 0)[1:]
     return [mc_router('T'), gen_bfs('X', 2, sample=0.5), gen_bfs('B', 2), gen_bfs('A', 2, sample=0.5), gen_bfs('Wd', 2), gogen('bytes', 3000), gogen('mixed', 1000, seedoff=1),
             gogen('patterns', 30000, seedoff=2), gogen('patenum6', 0, name='go-patenum6'), gogen('bytes', 1500, fam='match', trace='Trace_Match', seedoff=3), gogen('bytes', 1000, fam='group', trace='Trace_Group', seedoff=4)] + cors_stages(0.5, 0)[1:]
@@ -281,9 +281,9 @@ def subF(st):
 def p_c19(q):
     F = dict(module='MC_RouterF', extra='MirrorExtra', urls='UrlSetF', rt=True)
     if q:
-        return [mc_router('T'), subF(gen_bfs('F', 2, sample=0.25, **F)), gen_bfs('FC', 3, module='MC_RouterF', extra='MirrorExtra'), gen_bfs('V', 2, module='MC_RouterF', extra='MirrorExtra', sample=0.5),
+        return [mc_router('T'), subF(gen_bfs('F', 2, sample=0.25, **F)), gen_bfs('FC', 3, module='MC_RouterF', extra='MirrorExtra'), gen_bfs('V', 2, module='MC_RouterF', extra='MirrorExtra', sample=0.5), gen_bfs('B', 1, module='MC_RouterF', extra='MirrorExtra'),
                 subF(gen_sim('F', 8, 8, module='MC_RouterF', extra='MirrorExtra'))]
-    return [mc_router('T'), subF(gen_bfs('F', 2, **F)), gen_bfs('FC', 3, module='MC_RouterF', extra='MirrorExtra'), gen_bfs('V', 2, module='MC_RouterF', extra='MirrorExtra'), subF(gen_sim('F', 4, 300, name='simF4', seedoff=5, **{k: v for k, v in F.items() if k in ('module', 'extra')})),
+    return [mc_router('T'), subF(gen_bfs('F', 2, **F)), gen_bfs('FC', 3, module='MC_RouterF', extra='MirrorExtra'), gen_bfs('V', 2, module='MC_RouterF', extra='MirrorExtra'), gen_bfs('B', 2, module='MC_RouterF', extra='MirrorExtra', sample=0.3), subF(gen_sim('F', 4, 300, name='simF4', seedoff=5, **{k: v for k, v in F.items() if k in ('module', 'extra')})),
             subF(gen_sim('F', 14, 60, module='MC_RouterF', extra='MirrorExtra'))]
 
 
